@@ -109,7 +109,6 @@ MUTANTS = [
      "    return Project(", ["C06"]),
     ("e05", P + "cli.py", "    handle_errors(errors, fail_on_warning)", "    handle_errors(errors)", ["C06"]),
     ("e06", P + "__init__.py", "        try:\n            yaml_bytes = source.read_bytes()\n        except OSError as err:", "        try:\n            yaml_bytes = source.read_bytes()\n        except FileNotFoundError as err:", ["C06"]),
-    ("e07", P + "parser/bodies.py", "            prop = attr.evolve(prop, is_multipart_body=True)", "            prop = attr.evolve(prop, is_multipart_body=body_type == BodyType.FILES)", ["C12"]),
     ("e08", PP + "list_property.py", "        items = list(data.prefixItems or [])", "        items = data.prefixItems or []", ["C20", "C12"]),
     ("e09", PP + "model_property.py", "            required_set.update(sub_prop.required or [])", "            pass", ["C15", "C10"]),
     ("d07", PP + "schemas.py", "        for name, existing in self.classes_by_name.items():\n            other =", "        for name, existing in list(self.classes_by_name.items())[1:]:\n            other =", ["C09"]),
